@@ -38,7 +38,8 @@ LEVEL_TEXT = ("Exploration: thousands of round trips over generated trees (all s
               " One case in four also goes through the extended format (to_eswc / from_eswc as text and as a file, five integer columns and one of the caller's own, the caller's list of column names re-used between calls)."
               " The writer's line generators of two trees consumed in turns."
               " Sources that decode their own bytes (TextIOWrapper in latin-1 / cp1252 / utf-16 / utf-32); round trips of twins under custom column names."
-              " Columns that vary only in their last digits; the caller's comment list edited after construction.")
+              " Columns that vary only in their last digits; the caller's comment list edited after construction."
+              " Reads with a root repair requested on single-root text.")
 LEVEL_NOTE = ("Trusts decimal.Decimal for the rounding reference and Python's float parser; comments "
               "are single-line and never start with the column banner (the reader documents "
               "dropping that line). Tree.from_eswc keeps only the seven standard columns; the extended "
